@@ -52,11 +52,22 @@ def run_checks(root, props):
 
 
 def main():
-    args = [a for a in sys.argv[1:] if not a.startswith('--')]
+    base_dir = '/tmp/wt'
+    suffix = ''
+    argv = list(sys.argv[1:])
+    if '--base' in argv:
+        i = argv.index('--base')
+        base_dir = argv[i + 1]
+        del argv[i:i + 2]
+    if '--suffix' in argv:
+        i = argv.index('--suffix')
+        suffix = argv[i + 1]
+        del argv[i:i + 2]
+    args = [a for a in argv if not a.startswith('--')]
     do_tests = '--no-tests' not in sys.argv
     props = implemented_props()
     for P in args:
-        outdir = '/tmp/wt/%s/out' % P
+        outdir = '%s/%s/out' % (base_dir, P)
         if not os.path.isdir(outdir):
             print(P, 'no output dir')
             continue
@@ -66,7 +77,7 @@ def main():
             demo = os.path.join(src, 'demo.py')
             if not (os.path.isfile(patch) and os.path.isfile(demo)):
                 continue
-            sid = '%s-%s' % (P, k)
+            sid = '%s%s-%s' % (P, suffix, k)
             base = tempfile.mkdtemp(prefix='triage_')
             root = os.path.join(base, 'repo')
             make_copy(root)
